@@ -9,7 +9,21 @@
    The same table is sent to the Go replayer, which turns indices back into bytes.
 
    One action = one call of the storage interface.  `act` and `res` are output-only variables
-   (the call and its return value); they are what the replayer compares, together with `store`. *)
+   (the call and its return value); they are what the replayer compares, together with `store`.
+
+   Interface -> action (every method of db.KeyValueStore / Batch / IndexedBatch / Snapshot /
+   Iterator is one, with its own result):
+     store     Has -> Has; Get(key, cb) -> Get (cbf: the callback fails); Put; Delete; DeleteRange;
+               NewIterator(prefix, withUpperBound) -> NewIter("store", p, ub) (result: the content);
+               NewBatch / NewBatchWithSize / NewIndexedBatch / NewIndexedBatchWithSize ->
+               NewBatch(indexed, sized); NewSnapshot; Update(fn) / Write(fn) -> UpdateFn(ops, rk, fail,
+               helper) (fn writes ops, then reads rk through the indexed batch); Close + open -> Reopen;
+               Impl (to flush the write buffer) -> Flush
+     batch     Put / Delete / DeleteRange -> BatchAdd; Size -> BatchSize; Write -> BatchWrite;
+               Close -> BatchDiscard; indexed: Get -> BatchGet, Has -> BatchHas, NewIterator -> NewIter("batch")
+     snapshot  Get -> SnapGet; Has -> SnapHas; NewIterator -> NewIter("snap"); Close -> SnapClose
+     iterator  First / Next / Prev / Seek -> IterFirst / IterNext / IterPrev / IterSeek (result: Valid,
+               Key, Value - and UncopiedValue, which must equal Value); Close -> IterClose *)
 EXTENDS Integers, Sequences, FiniteSets, TLC
 
 CONSTANTS KeyBytes,      \* sequence of byte strings (each a sequence of 0..255), sorted, distinct
@@ -22,6 +36,18 @@ CONSTANTS KeyBytes,      \* sequence of byte strings (each a sequence of 0..255)
                               \* FALSE would describe db/memory before the H14 fix
           AllowPrefixNoBound  \* TRUE: also explore the (prefix # nil, withUpperBound = FALSE) shape
 
+(* Mutant switch: "none" is the contract.  Every other value replaces ONE clause of one action by
+   a plausible wrong implementation; the expected-violation configurations (KV_x_*.cfg) override
+   this definition (CONSTANTS Mutant <- Mut...) and TLC must report the named property violated:
+   the properties are sensitive to that class of defect.  Not a CONSTANT so that the other modules
+   of the family (KVLin, KVTrace) and their configurations are unaffected.
+     "seek-from-current"        Seek searches from the current position when the iterator is valid
+     "prev-after-seekmiss"      Prev after a Seek past the end stays invalid
+     "has-ignores-own-delete"   Has through an indexed batch falls through the batch's own delete
+     "batchiter-ignores-range"  an iterator over an indexed batch ignores the batch's range deletes
+     "snap-has-live"            Has on a snapshot answers from the live store *)
+Mutant == "none"
+
 NK == Len(KeyBytes)
 K == 1..NK
 Absent == "-"            \* never a member of Vals
@@ -30,7 +56,7 @@ ASSUME Absent \notin Vals
 VARIABLES store,   \* [K -> Vals \cup {Absent}]
           batch,   \* [open, indexed, ops]   ops: sequence of [op, k, v, s, e]
           snap,    \* [open, data]
-          it,      \* [open, keys, vals, pos, st]  st \in {"fresh","valid","seekmiss","dead"}
+          it,      \* [open, src, p, ub, keys, vals, pos, st]  st \in {"fresh","valid","seekmiss","dead"}
           steps,
           act, res
 
@@ -87,7 +113,7 @@ BatchView == ApplyOps(store, batch.ops)      \* what reads through an indexed ba
 
 NoBatch == [open |-> FALSE, indexed |-> FALSE, ops |-> <<>>]
 NoSnap == [open |-> FALSE, data |-> [k \in K |-> Absent]]
-NoIt == [open |-> FALSE, src |-> "none", keys |-> <<>>, vals |-> <<>>, pos |-> 0, st |-> "fresh"]
+NoIt == [open |-> FALSE, src |-> "none", p |-> <<>>, ub |-> FALSE, keys |-> <<>>, vals |-> <<>>, pos |-> 0, st |-> "fresh"]
 NoRes == [kind |-> "none"]
 
 PutOp(k, v) == [op |-> "put", k |-> k, v |-> v, s |-> 0, e |-> 0]
@@ -108,6 +134,9 @@ Init ==
 Tick == steps < MaxSteps /\ steps' = steps + 1
 
 ReadRes(d, k) == IF d[k] = Absent THEN [kind |-> "notfound"] ELSE [kind |-> "value", v |-> d[k]]
+(* Get(key, cb): the callback runs only when the key exists; when it fails (cbf) Get returns its error *)
+ReadResCb(d, k, cbf) == IF d[k] # Absent /\ cbf THEN [kind |-> "cberr"] ELSE ReadRes(d, k)
+HasRes(d, k) == [kind |-> "has", b |-> d[k] # Absent]
 
 --------------------------------------------------------------------------
 (* direct store calls *)
@@ -134,17 +163,29 @@ DeleteRange(s, e) ==
   /\ act' = [name |-> "DeleteRange", s |-> s, e |-> e] /\ res' = [kind |-> "ok"]
   /\ UNCHANGED <<batch, snap, it>>
 
-Get(k) ==
+Get(k, cbf) ==
   /\ Tick
-  /\ act' = [name |-> "Get", k |-> k] /\ res' = ReadRes(store, k)
+  /\ act' = [name |-> "Get", k |-> k, cbf |-> cbf] /\ res' = ReadResCb(store, k, cbf)
   /\ UNCHANGED <<store, batch, snap, it>>
 
-(* Update(fn): fn receives an indexed batch; when fn fails nothing is applied. *)
-UpdateFn(ops, fail) ==
+Has(k) ==
+  /\ Tick
+  /\ act' = [name |-> "Has", k |-> k] /\ res' = HasRes(store, k)
+  /\ UNCHANGED <<store, batch, snap, it>>
+
+(* Update(fn) / Write(fn): fn receives an indexed (helper "update") or a write-only (helper "write")
+   batch; when fn fails nothing is applied.  With the indexed batch fn may read: after its
+   operations it reads key rk (0 = no read) through the batch with Get and Has - the result `rd`
+   is what the batch's own writes over the store give. *)
+UpdateFn(ops, rk, fail, helper) ==
   /\ Tick /\ DirectWriteAllowed
+  /\ helper \in {"update", "write"} /\ (helper = "write" => rk = 0)
+  /\ Len(ops) <= MaxBatchOps               \* the callback fills a batch: same bound as a batch's log
   /\ store' = IF fail THEN store ELSE ApplyOps(store, ops)
-  /\ act' = [name |-> "Update", ops |-> ops, fail |-> fail]
-  /\ res' = [kind |-> IF fail THEN "cberr" ELSE "ok"]
+  /\ act' = [name |-> "Update", ops |-> ops, rk |-> rk, fail |-> fail, helper |-> helper]
+  /\ res' = [kind |-> IF fail THEN "cberr" ELSE "ok",
+             rd |-> IF rk = 0 THEN "" ELSE
+                    LET v == ApplyOps(store, ops)[rk] IN IF v = Absent THEN "notfound" ELSE "value:" \o v]
   /\ UNCHANGED <<batch, snap, it>>
 
 (* Durability events have no abstract effect: flushing the write buffer to disk (Pebble memtable
@@ -163,10 +204,11 @@ Reopen ==
 
 --------------------------------------------------------------------------
 (* batches *)
-NewBatch(indexed) ==
+(* NewBatch / NewBatchWithSize / NewIndexedBatch / NewIndexedBatchWithSize: the size is a hint *)
+NewBatch(indexed, sized) ==
   /\ Tick /\ EnableBatch /\ ~batch.open
   /\ batch' = [open |-> TRUE, indexed |-> indexed, ops |-> <<>>]
-  /\ act' = [name |-> "NewBatch", indexed |-> indexed] /\ res' = [kind |-> "ok"]
+  /\ act' = [name |-> "NewBatch", indexed |-> indexed, sized |-> sized] /\ res' = [kind |-> "ok"]
   /\ UNCHANGED <<store, snap, it>>
 
 BatchAdd(o, nm) ==
@@ -175,9 +217,41 @@ BatchAdd(o, nm) ==
   /\ act' = [name |-> nm, o |-> o] /\ res' = [kind |-> "ok"]
   /\ UNCHANGED <<store, snap, it>>
 
-BatchGet(k) ==
+BatchGet(k, cbf) ==
   /\ Tick /\ batch.open /\ batch.indexed
-  /\ act' = [name |-> "BatchGet", k |-> k] /\ res' = ReadRes(BatchView, k)
+  /\ act' = [name |-> "BatchGet", k |-> k, cbf |-> cbf] /\ res' = ReadResCb(BatchView, k, cbf)
+  /\ UNCHANGED <<store, batch, snap, it>>
+
+(* the last operation of the log that touches key k (0: none) *)
+LastOwn(ops, k) ==
+  LET own == {i \in 1..Len(ops) :
+                \/ (ops[i].op \in {"put", "del"} /\ ops[i].k = k)
+                \/ (ops[i].op = "delrange" /\ ops[i].s <= k /\ k < ops[i].e)}
+  IN IF own = {} THEN 0 ELSE CHOOSE i \in own : \A j \in own : j <= i
+
+BatchHas(k) ==
+  /\ Tick /\ batch.open /\ batch.indexed
+  /\ act' = [name |-> "BatchHas", k |-> k]
+  /\ res' = IF Mutant = "has-ignores-own-delete" /\ LastOwn(batch.ops, k) # 0
+                /\ batch.ops[LastOwn(batch.ops, k)].op # "put"
+             THEN HasRes(store, k) ELSE HasRes(BatchView, k)
+  /\ UNCHANGED <<store, batch, snap, it>>
+
+(* Batch.Size(): the bytes of the keys and values put / deleted so far.  A range delete adds an
+   unspecified amount >= 0 (db/memory resolves it to per-key deletes, Pebble counts nothing), so
+   with a range delete in the log the number is a lower bound (exact = FALSE). *)
+RECURSIVE OpsBytes(_)
+OpsBytes(ops) ==
+  IF ops = <<>> THEN 0
+  ELSE LET o == Head(ops) IN
+       (CASE o.op = "put" -> Len(KeyBytes[o.k]) + Len(o.v)
+          [] o.op = "del" -> Len(KeyBytes[o.k])
+          [] OTHER -> 0) + OpsBytes(Tail(ops))
+
+BatchSize ==
+  /\ Tick /\ batch.open
+  /\ act' = [name |-> "BatchSize"]
+  /\ res' = [kind |-> "size", n |-> OpsBytes(batch.ops), exact |-> ~HasRange(batch.ops)]
   /\ UNCHANGED <<store, batch, snap, it>>
 
 (* Contract: an iterator is closed before the batch / snapshot it reads from is written or closed. *)
@@ -204,9 +278,15 @@ NewSnapshot ==
   /\ act' = [name |-> "NewSnapshot"] /\ res' = [kind |-> "ok"]
   /\ UNCHANGED <<store, batch, it>>
 
-SnapGet(k) ==
+SnapGet(k, cbf) ==
   /\ Tick /\ snap.open
-  /\ act' = [name |-> "SnapGet", k |-> k] /\ res' = ReadRes(snap.data, k)
+  /\ act' = [name |-> "SnapGet", k |-> k, cbf |-> cbf] /\ res' = ReadResCb(snap.data, k, cbf)
+  /\ UNCHANGED <<store, batch, snap, it>>
+
+SnapHas(k) ==
+  /\ Tick /\ snap.open
+  /\ act' = [name |-> "SnapHas", k |-> k]
+  /\ res' = HasRes(IF Mutant = "snap-has-live" THEN store ELSE snap.data, k)
   /\ UNCHANGED <<store, batch, snap, it>>
 
 SnapClose ==
@@ -217,9 +297,15 @@ SnapClose ==
 
 --------------------------------------------------------------------------
 (* iterators: the content is fixed when the iterator is created *)
+NoRangeOps(ops) == SelectSeq(ops, LAMBDA o : o.op # "delrange")
 Source(src) == CASE src = "store" -> store
-                 [] src = "batch" -> BatchView
+                 [] src = "batch" -> IF Mutant = "batchiter-ignores-range"
+                                     THEN ApplyOps(store, NoRangeOps(batch.ops)) ELSE BatchView
                  [] src = "snap" -> snap.data
+
+RECURSIVE ItemsStr(_, _, _)
+ItemsStr(ks, vs, i) ==
+  IF i > Len(ks) THEN "" ELSE ToString(ks[i]) \o "=" \o vs[i] \o ";" \o ItemsStr(ks, vs, i + 1)
 
 NewIter(src, p, ub) ==
   /\ Tick /\ EnableIter /\ ~it.open
@@ -229,8 +315,10 @@ NewIter(src, p, ub) ==
   /\ (p # <<>> /\ ~ub) => AllowPrefixNoBound \* ... plus the (prefix, FALSE) shape when explored
   /\ LET d == Source(src)
          ks == SortedSeq({k \in K : d[k] # Absent /\ InRange(k, p, ub)}) IN
-     it' = [open |-> TRUE, src |-> src, keys |-> ks, vals |-> [i \in 1..Len(ks) |-> d[ks[i]]], pos |-> 0, st |-> "fresh"]
-  /\ act' = [name |-> "NewIter", src |-> src, p |-> p, ub |-> ub] /\ res' = [kind |-> "ok"]
+     it' = [open |-> TRUE, src |-> src, p |-> p, ub |-> ub, keys |-> ks, vals |-> [i \in 1..Len(ks) |-> d[ks[i]]], pos |-> 0, st |-> "fresh"]
+  /\ act' = [name |-> "NewIter", src |-> src, p |-> p, ub |-> ub]
+     \* the result is the content the new iterator ranges over, "k=v;k=v;..." in key order
+  /\ res' = [kind |-> "ok", items |-> ItemsStr(it'.keys, it'.vals, 1)]
   /\ UNCHANGED <<store, batch, snap>>
 
 ItRes(i) == IF i >= 1 /\ i <= Len(it.keys)
@@ -248,7 +336,8 @@ IterFirst == Tick /\ it.open /\ MoveTo(1, [name |-> "IterFirst"], "dead")
 (* Seek(k): first key >= k; on a miss the iterator sits one past the end and Prev steps back *)
 IterSeek(k) ==
   /\ Tick /\ it.open
-  /\ LET hits == {i \in 1..Len(it.keys) : it.keys[i] >= k}
+  /\ LET from == IF Mutant = "seek-from-current" /\ it.st = "valid" THEN it.pos ELSE 1
+         hits == {i \in from..Len(it.keys) : it.keys[i] >= k}
          i == IF hits = {} THEN Len(it.keys) + 1 ELSE CHOOSE x \in hits : \A y \in hits : x <= y IN
      MoveTo(i, [name |-> "IterSeek", k |-> k], "seekmiss")
 
@@ -258,7 +347,9 @@ IterNext ==
 
 IterPrev ==
   /\ Tick /\ it.open /\ it.st \in {"fresh", "valid", "seekmiss"}
-  /\ MoveTo(IF it.st = "fresh" THEN 1 ELSE it.pos - 1, [name |-> "IterPrev"], "dead")
+  /\ MoveTo(IF it.st = "fresh" THEN 1
+            ELSE IF it.st = "seekmiss" /\ Mutant = "prev-after-seekmiss" THEN it.pos
+            ELSE it.pos - 1, [name |-> "IterPrev"], "dead")
 
 IterClose ==
   /\ Tick /\ it.open
@@ -275,14 +366,24 @@ BatchOpAlphabet ==
 UpdateOps == {<<>>} \cup {<<o>> : o \in BatchOpAlphabet}
                \cup {<<PutOp(k, v), DelOp(k2)>> : k \in K, k2 \in K, v \in Vals}
 
+(* what the callback reads after its writes: nothing, a key it wrote (or the start of a range it
+   deleted), or key 1 (mostly one it did not touch).  Exhaustive exploration only; the simulated
+   and the cover behaviours read any key. *)
+UpdateReadKeys(ops) ==
+  {0, 1} \cup {ops[i].k : i \in {j \in 1..Len(ops) : ops[j].op # "delrange"}}
+         \cup {ops[i].s : i \in {j \in 1..Len(ops) : ops[j].op = "delrange"}}
+
 Next ==
   \/ \E k \in K, v \in Vals : Put(k, v)
-  \/ \E k \in K : Delete(k) \/ Get(k) \/ BatchGet(k) \/ SnapGet(k) \/ IterSeek(k)
+  \/ \E k \in K : Delete(k) \/ Has(k) \/ BatchHas(k) \/ SnapHas(k) \/ IterSeek(k)
+  \/ \E k \in K, cbf \in BOOLEAN : Get(k, cbf) \/ BatchGet(k, cbf) \/ SnapGet(k, cbf)
   \/ \E s \in K, e \in K : DeleteRange(s, e)
-  \/ \E ops \in UpdateOps, f \in BOOLEAN : UpdateFn(ops, f)
-  \/ \E ix \in BOOLEAN : NewBatch(ix)
+  \/ \E ops \in UpdateOps, f \in BOOLEAN :
+        \/ UpdateFn(ops, 0, f, "write")
+        \/ \E rk \in UpdateReadKeys(ops) : UpdateFn(ops, rk, f, "update")
+  \/ \E ix \in BOOLEAN, sz \in BOOLEAN : NewBatch(ix, sz)
   \/ \E o \in BatchOpAlphabet : BatchAdd(o, "BatchOp")
-  \/ BatchWrite \/ BatchDiscard
+  \/ BatchSize \/ BatchWrite \/ BatchDiscard
   \/ NewSnapshot \/ SnapClose
   \/ \E src \in {"store", "batch", "snap"}, p \in Prefixes, ub \in BOOLEAN : NewIter(src, p, ub)
   \/ IterFirst \/ IterNext \/ IterPrev \/ IterClose
@@ -315,17 +416,34 @@ FailedUpdateAppliesNothing == [][(act'.name = "Update" /\ act'.fail) => store' =
 BatchIsSequential ==
   [][act'.name = "BatchWrite" => store' = ApplyOps(store, batch.ops)]_vars
 
-(* Indexed-batch reads see the batch's own writes over the store as of the read *)
+(* Indexed-batch reads - Get, Has, and a new iterator - see the batch's own writes over the store
+   as of the read: the LAST operation of the log touching the key decides (a put gives its value, a
+   delete or a covering range delete hides the key), the store decides when there is none *)
+OwnRead(k) ==
+  LET last == LastOwn(batch.ops, k) IN
+  IF last = 0 THEN store[k]
+  ELSE IF batch.ops[last].op = "put" THEN batch.ops[last].v ELSE Absent
+OwnView == [k \in K |-> OwnRead(k)]
+
 IndexedReadsOwnWrites ==
-  [][act'.name = "BatchGet" =>
-       LET k == act'.k
-           own == {i \in 1..Len(batch.ops) :
-                     \/ (batch.ops[i].op \in {"put", "del"} /\ batch.ops[i].k = k)
-                     \/ (batch.ops[i].op = "delrange" /\ batch.ops[i].s <= k /\ k < batch.ops[i].e)}
-       IN IF own = {} THEN res' = ReadRes(store, k)
-          ELSE LET last == CHOOSE i \in own : \A j \in own : j <= i IN
-               res' = IF batch.ops[last].op = "put" THEN [kind |-> "value", v |-> batch.ops[last].v]
-                      ELSE [kind |-> "notfound"]]_vars
+  [][/\ act'.name = "BatchGet" => res' = ReadResCb(OwnView, act'.k, act'.cbf)
+     /\ act'.name = "BatchHas" => res' = HasRes(OwnView, act'.k)
+     /\ (act'.name = "NewIter" /\ act'.src = "batch") =>
+           /\ \A k \in K : (\E i \in 1..Len(it'.keys) : it'.keys[i] = k)
+                               <=> (OwnRead(k) # Absent /\ InRange(k, act'.p, act'.ub))
+           /\ \A i \in 1..Len(it'.keys) : it'.vals[i] = OwnRead(it'.keys[i])]_vars
+
+(* Has answers what Get answers (store; for the batch see above, for the snapshot below) *)
+HasAgreesWithGet == [][act'.name = "Has" => res'.b = (store[act'.k] # Absent)]_vars
+
+(* A snapshot is the store content at its creation; its reads (Get, Has, iterators) answer from
+   it whatever happens to the store afterwards (with SnapshotIsolation: snap.data never changes) *)
+SnapshotReadsFrozen ==
+  [][/\ act'.name = "NewSnapshot" => snap'.data = store
+     /\ act'.name = "SnapGet" => res' = ReadResCb(snap.data, act'.k, act'.cbf)
+     /\ act'.name = "SnapHas" => res' = HasRes(snap.data, act'.k)
+     /\ (act'.name = "NewIter" /\ act'.src = "snap") =>
+           \A i \in 1..Len(it'.keys) : it'.vals[i] = snap.data[it'.keys[i]]]_vars
 
 (* Iterators: keys strictly ascending, all inside the requested range, and complete for it *)
 IterSorted == it.open => \A i \in 1..(Len(it.keys) - 1) : it.keys[i] < it.keys[i + 1]
@@ -341,4 +459,12 @@ IterSeekIsLowerBound ==
 IterStepsAreAdjacent ==
   [][(act'.name = "IterNext" /\ it.st = "valid" /\ res'.kind = "at") =>
         (res'.k > it.keys[it.pos] /\ ~\E i \in 1..Len(it.keys) : it.keys[it.pos] < it.keys[i] /\ it.keys[i] < res'.k)]_vars
+(* Prev from a valid position gives the greatest smaller key, Prev after a Seek past the end gives
+   the last key; invalid only when there is none *)
+IterPrevIsAdjacent ==
+  [][(act'.name = "IterPrev" /\ it.st \in {"valid", "seekmiss"}) =>
+        LET below == {i \in 1..Len(it.keys) : it.st = "valid" => it.keys[i] < it.keys[it.pos]} IN
+        IF below = {} THEN res'.kind = "invalid"
+        ELSE /\ res'.kind = "at"
+             /\ \E i \in below : it.keys[i] = res'.k /\ \A j \in below : it.keys[j] <= res'.k]_vars
 =============================================================================
